@@ -285,10 +285,15 @@ func (i *Index) RmDesc(d Descriptor) {
 		if d.Digest != "" && i.Manifests[mi].Digest == d.Digest {
 			if tag != "" {
 				// deleting a tag leaves one untagged manifest entry
-				if found && (i.Manifests[mi].Annotations == nil || i.Manifests[mi].Annotations[AnnotRefName] == tag) {
+				mdTag, mdReferrer := "", ""
+				if i.Manifests[mi].Annotations != nil {
+					mdTag = i.Manifests[mi].Annotations[AnnotRefName]
+					mdReferrer = i.Manifests[mi].Annotations[AnnotReferrerSubject]
+				}
+				if found && (mdTag == tag || (mdTag == "" && mdReferrer == "")) {
 					i.Manifests[mi] = i.Manifests[len(i.Manifests)-1]
 					i.Manifests = i.Manifests[:len(i.Manifests)-1]
-				} else if i.Manifests[mi].Annotations != nil && i.Manifests[mi].Annotations[AnnotRefName] == tag {
+				} else if mdTag == tag {
 					delete(i.Manifests[mi].Annotations, AnnotRefName)
 				}
 				found = true
